@@ -117,7 +117,7 @@ def run_nodes(ctx, res, extra_cases):
     dist = res["distribution"]
     rng = ctx.rng
     cases = [(n, cs) for n, cs in extra_cases if n in FMT]
-    for i in range(ctx.n(900, 30000)):
+    for i in range(ctx.n(600, 30000)):
         name = ("SRT", "MicroDVD", "WebVTT")[i % 3]
         cases.append((name, adv_set(rng, name)))
     reqs, items = [], []
